@@ -243,9 +243,51 @@ func isStringBuilding(user ssa.Instruction, v ssa.Value) bool {
 
 // ---- parts form: the same reading, keeping the dynamic pieces as values --------------------------
 
+// callBind: the dynamic piece was found inside a helper; parameters of callee stand for args (in the caller's
+// frame, itself possibly bound).
+type callBind struct {
+	callee *ssa.Function
+	args   []ssa.Value
+	parent *callBind
+}
+
+// resolve maps a value of the bound frame that is a parameter (or the local a parameter was spilled into) to the
+// caller's argument; returns the value and the binding that now applies to it.
+func (b *callBind) resolve(v ssa.Value) (ssa.Value, *callBind) {
+	for b != nil {
+		w := v
+		if u, ok := w.(*ssa.UnOp); ok && u.Op == token.MUL {
+			if st := singleStore(u.X); st != nil {
+				w = st
+			}
+		}
+		if a, ok := w.(*ssa.Alloc); ok {
+			if st := singleStore(a); st != nil {
+				w = st
+			}
+		}
+		p, ok := w.(*ssa.Parameter)
+		if !ok || p.Parent() != b.callee {
+			return v, b
+		}
+		i := -1
+		for k, q := range b.callee.Params {
+			if q == p {
+				i = k
+			}
+		}
+		if i < 0 || i >= len(b.args) {
+			return v, b
+		}
+		v, b = b.args[i], b.parent
+	}
+	return v, nil
+}
+
 type sPart struct {
-	lit string
-	dyn ssa.Value // nil for a literal
+	lit  string
+	dyn  ssa.Value // nil for a literal
+	bind *callBind // frame of dyn when it was found inside a helper
 }
 
 func (p sPart) isLit() bool { return p.dyn == nil }
@@ -283,7 +325,11 @@ func crossParts(a, b [][]sPart) [][]sPart {
 // strParts: the variants of a string expression as sequences of literal and dynamic parts; nil when the
 // expression is too large to enumerate.
 func strParts(v ssa.Value) [][]sPart {
-	return strPartsRec(v, map[ssa.Value]bool{}, 0)
+	return strPartsRec(v, map[ssa.Value]bool{}, 0, nil)
+}
+
+func strPartsBound(v ssa.Value, bind *callBind) [][]sPart {
+	return strPartsRec(v, map[ssa.Value]bool{}, 0, bind)
 }
 
 func stripStringConv(v ssa.Value) ssa.Value {
@@ -306,8 +352,60 @@ func stripStringConv(v ssa.Value) ssa.Value {
 	return v
 }
 
-func strPartsRec(v ssa.Value, seen map[ssa.Value]bool, depth int) [][]sPart {
-	leaf := func(x ssa.Value) [][]sPart { return [][]sPart{{{dyn: x}}} }
+// formatParts: the parts of a printf-style text with a constant format.
+func formatParts(format string, args []ssa.Value, seen map[ssa.Value]bool, depth int, bind *callBind, whole ssa.Value) [][]sPart {
+	leaf := func(x ssa.Value) [][]sPart { return [][]sPart{{{dyn: x, bind: bind}}} }
+	out := [][]sPart{{}}
+	ai := 0
+	lit := ""
+	flush := func() {
+		if lit != "" {
+			out = crossParts(out, [][]sPart{{{lit: lit}}})
+			lit = ""
+		}
+	}
+	for i := 0; i < len(format); i++ {
+		if format[i] != '%' {
+			lit += string(format[i])
+			continue
+		}
+		if i+1 < len(format) && format[i+1] == '%' {
+			lit += "%"
+			i++
+			continue
+		}
+		j := i + 1
+		for j < len(format) && strings.ContainsRune("+-# 0123456789.", rune(format[j])) {
+			j++
+		}
+		flush()
+		var piece [][]sPart
+		if ai < len(args) {
+			a := stripStringConv(args[ai])
+			if isStringType(a.Type()) {
+				piece = strPartsRec(a, seen, depth+1, bind)
+			} else {
+				piece = leaf(a)
+			}
+		} else {
+			piece = [][]sPart{{{lit: "%!missing"}}}
+		}
+		ai++
+		if piece == nil {
+			return leaf(whole)
+		}
+		out = crossParts(out, piece)
+		if out == nil {
+			return leaf(whole)
+		}
+		i = j
+	}
+	flush()
+	return out
+}
+
+func strPartsRec(v ssa.Value, seen map[ssa.Value]bool, depth int, bind *callBind) [][]sPart {
+	leaf := func(x ssa.Value) [][]sPart { return [][]sPart{{{dyn: x, bind: bind}}} }
 	if depth > 24 {
 		return leaf(v)
 	}
@@ -315,10 +413,16 @@ func strPartsRec(v ssa.Value, seen map[ssa.Value]bool, depth int) [][]sPart {
 	if s, ok := constString(v); ok {
 		return [][]sPart{normParts([]sPart{{lit: s}})}
 	}
+	// a parameter of a helper: the caller's argument
+	if bind != nil {
+		if w, nb := bind.resolve(v); w != v {
+			return strPartsRec(w, seen, depth+1, nb)
+		}
+	}
 	switch x := v.(type) {
 	case *ssa.BinOp:
 		if x.Op == token.ADD && isStringType(x.Type()) {
-			return crossParts(strPartsRec(x.X, seen, depth+1), strPartsRec(x.Y, seen, depth+1))
+			return crossParts(strPartsRec(x.X, seen, depth+1, bind), strPartsRec(x.Y, seen, depth+1, bind))
 		}
 	case *ssa.Phi:
 		if !isStringType(x.Type()) {
@@ -331,7 +435,7 @@ func strPartsRec(v ssa.Value, seen map[ssa.Value]bool, depth int) [][]sPart {
 		defer delete(seen, x)
 		var out [][]sPart
 		for _, e := range x.Edges {
-			r := strPartsRec(e, seen, depth+1)
+			r := strPartsRec(e, seen, depth+1, bind)
 			out = append(out, r...)
 		}
 		if len(out) == 0 || len(out) > maxStrVariants {
@@ -346,7 +450,7 @@ func strPartsRec(v ssa.Value, seen map[ssa.Value]bool, depth int) [][]sPart {
 				for _, r := range *a.Referrers() {
 					if st, ok := r.(*ssa.Store); ok && st.Addr == ssa.Value(a) {
 						n++
-						out = append(out, strPartsRec(st.Val, seen, depth+1)...)
+						out = append(out, strPartsRec(st.Val, seen, depth+1, bind)...)
 					}
 				}
 				if n > 0 && len(out) > 0 && len(out) <= maxStrVariants {
@@ -367,53 +471,26 @@ func strPartsRec(v ssa.Value, seen map[ssa.Value]bool, depth int) [][]sPart {
 			if len(x.Call.Args) > 1 {
 				args = orderedVariadic(x.Call.Args[1])
 			}
-			out := [][]sPart{{}}
-			ai := 0
-			lit := ""
-			flush := func() {
-				if lit != "" {
-					out = crossParts(out, [][]sPart{{{lit: lit}}})
-					lit = ""
-				}
-			}
-			for i := 0; i < len(format); i++ {
-				if format[i] != '%' {
-					lit += string(format[i])
-					continue
-				}
-				if i+1 < len(format) && format[i+1] == '%' {
-					lit += "%"
-					i++
-					continue
-				}
-				j := i + 1
-				for j < len(format) && strings.ContainsRune("+-# 0123456789.", rune(format[j])) {
-					j++
-				}
-				flush()
-				var piece [][]sPart
-				if ai < len(args) {
-					a := stripStringConv(args[ai])
-					if isStringType(a.Type()) {
-						piece = strPartsRec(a, seen, depth+1)
-					} else {
-						piece = leaf(a)
+			return formatParts(format, args, seen, depth, bind, v)
+		}
+		// a helper of the repository that returns one string expression (`monetaryKey(p)`)
+		if callee := x.Call.StaticCallee(); callee != nil && callee.Pkg != nil && inRepo(callee.Pkg.Pkg.Path()) && len(callee.Blocks) > 0 && !seen[x] {
+			res := callee.Signature.Results()
+			if res.Len() == 1 && isStringType(res.At(0).Type()) {
+				var ret *ssa.Return
+				n := 0
+				for _, b := range callee.Blocks {
+					if r, ok := b.Instrs[len(b.Instrs)-1].(*ssa.Return); ok {
+						ret = r
+						n++
 					}
-				} else {
-					piece = [][]sPart{{{lit: "%!missing"}}}
 				}
-				ai++
-				if piece == nil {
-					return leaf(v)
+				if n == 1 {
+					seen[x] = true
+					defer delete(seen, x)
+					return strPartsRec(ret.Results[0], seen, depth+1, &callBind{callee: callee, args: x.Call.Args, parent: bind})
 				}
-				out = crossParts(out, piece)
-				if out == nil {
-					return leaf(v)
-				}
-				i = j
 			}
-			flush()
-			return out
 		}
 	}
 	return leaf(v)
